@@ -57,21 +57,21 @@ package dns
 //@   exit time: ret0 == nil ==> (now >= tsig.TimeSigned ==> now - tsig.TimeSigned <= tsig.Fudge) && (now < tsig.TimeSigned ==> tsig.TimeSigned - now <= tsig.Fudge)
 
 // the built-in HMAC provider accepts only when the recomputed MAC equals the one in the record
-//@ func (tsigHMACProvider).Verify [C11]
+//@ func (tsigHMACProvider).Verify [C11 C15]
 //@   requires t != nil
 //@   exit eq: ret0 == nil ==> callres("Equal")
 //@   callsite "Equal" whole: same(arg0, b) && same(arg1, mac) && same(b, callres("Generate", 0))
 //@   callsite "DecodeString" recmac: arg0 == t.MAC
 // RFC 8945 6: each algorithm name selects its own digest (hmac-sha1, -sha224, -sha256, -sha384, -sha512)
-//@ func (tsigHMACProvider).Generate [C11]
+//@ func (tsigHMACProvider).Generate [C11 C15]
 //@   callsite "crypto/hmac.New" digest: (callres("CanonicalName") == "hmac-sha1." ==> arg0 == funcval("crypto/sha1.New")) && (callres("CanonicalName") == "hmac-sha224." ==> arg0 == funcval("crypto/sha256.New224")) && (callres("CanonicalName") == "hmac-sha256." ==> arg0 == funcval("crypto/sha256.New")) && (callres("CanonicalName") == "hmac-sha384." ==> arg0 == funcval("crypto/sha512.New384")) && (callres("CanonicalName") == "hmac-sha512." ==> arg0 == funcval("crypto/sha512.New")) && same(arg1, rawsecret)
 //@   callsite "crypto/hmac.New" known: callres("CanonicalName") == "hmac-sha1." || callres("CanonicalName") == "hmac-sha224." || callres("CanonicalName") == "hmac-sha256." || callres("CanonicalName") == "hmac-sha384." || callres("CanonicalName") == "hmac-sha512."
 //@   callsite "CanonicalName" alg: arg0 == t.Algorithm
 //@   requires t != nil
-//@ func (tsigSecretProvider).Verify [C11]
+//@ func (tsigSecretProvider).Verify [C11 C15]
 //@   requires t != nil
 //@   exit key: ret0 == nil ==> ok
-//@ func (tsigSecretProvider).Generate [C11]
+//@ func (tsigSecretProvider).Generate [C11 C15]
 //@   requires t != nil
 //@   exit key: ret1 == nil ==> ok
 
